@@ -226,7 +226,7 @@ class GateCompiler(object):
                 ) = self._process_gate_pulse(start_time, tlist, coeff)
                 min_step_size = min(step_size, min_step_size)
 
-                if abs(last_pulse_time) < step_size * 1.0e-6:  # if first pulse
+                if not compiled_tlist[pulse_ind]:  # if first pulse
                     compiled_tlist[pulse_ind].append([0.0])
                     if pulse_mode == "continuous":
                         compiled_coeffs[pulse_ind].append([0.0])
